@@ -7,6 +7,7 @@ CONSTANTS
   ExpiryRecheck = TRUE
   EntryApi = TRUE
   FlushLock = FALSE
+  CollectOwn = TRUE
 SPECIFICATION Spec
 INVARIANT Linearizable
 INVARIANT SerialEquiv
